@@ -9,7 +9,7 @@ from ..kernel import Violation, Discard, SutError, arr_rng
 from .. import simlib, refs
 
 
-def make_frame_sim(spec):
+def make_frame_sim(spec, with_alt=False):
     from EasyFEA import Mesher, Models, Simulations, ElemType
     from EasyFEA.Geoms import Domain, Point, Line
 
@@ -32,6 +32,11 @@ def make_frame_sim(spec):
             b._ky = p["ky"][k]
     mesh = mesher.Mesh_Beams(beams=beams, elemType=ElemType(p["elemType"]))
     sim = Simulations.Beam(mesh, Models.Beam.BeamStructure(beams), useTimoshenko=spec["timoshenko"])
+    if with_alt:
+        # the same frame meshed again with both element types, as gmsh returns them (plain SEG groups): what a user
+        # assigns to `simu.mesh` after a remeshing
+        alt = {et: mesher.Mesh_Beams(beams=beams, elemType=ElemType(et)) for et in ("SEG2", "SEG3")}
+        return sim, beams, pts, alt
     return sim, beams, pts
 
 
@@ -41,7 +46,8 @@ class BeamFresh:
         self.spec = {k: (dict(v) if isinstance(v, dict) else v) for k, v in cfg["beam"].items()}
         self.spec["params"] = {k: (list(v) if isinstance(v, list) else v) for k, v in cfg["beam"]["params"].items()}
         with ctx.sut():
-            self.sim, self.beams, self.pts = make_frame_sim(self.spec)
+            self.sim, self.beams, self.pts, self.alt = make_frame_sim(self.spec, with_alt=True)
+        self.iter_elem = []  # element type of the mesh each saved iteration belongs to
         self.un = list(self.sim.Get_unknowns())
         self.bcs = []  # resolved ("D"/"N", pt, nodes, dofs, values, unknowns) or ("L", LagrangeCondition args)
         self.iters = 0
@@ -90,7 +96,7 @@ class BeamFresh:
         return any(bc[0] == "L" for bc in self.bcs)
 
     def gen_op(self, rng, frng):
-        w = {"beam_param": 4, "dirichlet": 3 if self._anchored() else 8, "neumann": 2.5, "connection": 3 if not self._connected() else 0.0, "bc_init": 0.3,
+        w = {"beam_param": 4, "dirichlet": 3 if self._anchored() else 8, "neumann": 2.5, "connection": 3 if not self._connected() else 0.0, "bc_init": 0.3, "remesh": 0.8,
              "solve": 5 if (self._anchored() and self._connected()) else 0, "kcmf": 3, "result": 1.5 if self.solved else 0, "save_iter": 1, "set_iter": 0.7 if self.iters else 0}
         names = sorted(w)
         p = np.array([w[k] for k in names], dtype=float)
@@ -112,6 +118,8 @@ class BeamFresh:
             op.update(point=int(rng.integers(1, len(self.pts))), unknowns=[self.un[i] for i in rng.permutation(len(self.un))[:k]], vals=np.round(rng.uniform(-5, 5, k), 3).tolist())
         elif name == "connection":
             op["kind"] = ["fixed", "fixed", "hinged"][int(rng.integers(3))]
+        elif name == "remesh":
+            op["elemType"] = ["SEG2", "SEG3"][int(rng.integers(2))]
         elif name == "result":
             op["name"] = ["displacement", "ux", "uy", "rz"][int(rng.integers(4))]
         elif name == "set_iter":
@@ -199,6 +207,17 @@ class BeamFresh:
             self.d_points = set()
             self.hinged = False
             return "ok"
+        if name == "remesh":
+            # the frame is meshed again and the new mesh (as the mesher returns it) replaces the old one
+            with ctx.sut():
+                sim.mesh = self.alt[op["elemType"]]
+            self.spec["params"]["elemType"] = op["elemType"]
+            self.bcs = []
+            self.d_points = set()
+            self.hinged = False
+            self.solved = False
+            ctx.probe("frame_mesh_replaced")
+            return "ok"
         if name == "kcmf":
             self._compare("kcmf")
             return "ok"
@@ -246,12 +265,21 @@ class BeamFresh:
             with ctx.sut():
                 sim.Save_Iter()
             self.iters += 1
+            self.iter_elem.append(self.spec["params"]["elemType"])
             return "ok"
         if name == "set_iter":
             if op["i"] >= self.iters:
                 return "skip"
             with ctx.sut():
                 sim.Set_Iter(op["i"])
+                if self.iter_elem[op["i"]] != self.spec["params"]["elemType"]:
+                    # back on the other mesh of the history: its conditions are entered again from scratch
+                    sim.Bc_Init()
+            if self.iter_elem[op["i"]] != self.spec["params"]["elemType"]:
+                self.spec["params"]["elemType"] = self.iter_elem[op["i"]]
+                self.bcs = []
+                self.d_points = set()
+                self.hinged = False
             self.solved = True
             return "ok"
         return "skip"
